@@ -350,6 +350,10 @@ type Run struct {
 	seen      map[uint64]bool
 	next      int
 	vioPerKey map[string]int
+	// optional: per-shard header / case type (a run whose shards belong to different Run modules)
+	headers []string
+	types   []string
+	nextIn  map[int]int
 }
 
 func newRun(prop, outDir string, seed int64, nshards int, header, caseType, rule string) *Run {
@@ -368,6 +372,29 @@ func (r *Run) add(term string, input interface{}, impl string, nontrivial bool) 
 		r.sum.Cases = append(r.sum.Cases, CaseRec{Shard: sh, Index: len(r.shards[sh]), Input: input, Impl: impl})
 		r.shards[sh] = append(r.shards[sh], term)
 	}
+	r.sum.Evaluations++
+	if nontrivial {
+		b, _ := json.Marshal(input)
+		h := hash64(string(b))
+		if !r.seen[h] {
+			r.seen[h] = true
+			r.sum.Distinct++
+		}
+	}
+	if len(r.sum.Samples) < 5 && nontrivial {
+		r.sum.Samples = append(r.sum.Samples, map[string]interface{}{"input": input, "impl": impl})
+	}
+}
+
+// addIn registers a case in shard group g (groups of `per` consecutive shards); see add.
+func (r *Run) addIn(g, per int, term string, input interface{}, impl string, nontrivial bool) {
+	if r.nextIn == nil {
+		r.nextIn = map[int]int{}
+	}
+	sh := g*per + r.nextIn[g]%per
+	r.nextIn[g]++
+	r.sum.Cases = append(r.sum.Cases, CaseRec{Shard: sh, Index: len(r.shards[sh]), Input: input, Impl: impl})
+	r.shards[sh] = append(r.shards[sh], term)
 	r.sum.Evaluations++
 	if nontrivial {
 		b, _ := json.Marshal(input)
@@ -403,8 +430,12 @@ func (r *Run) finish() error {
 	}
 	for i, cs := range r.shards {
 		var sb strings.Builder
-		sb.WriteString(r.header)
-		sb.WriteString("Definition cases : list " + r.caseType + " := [\n")
+		hdr, typ := r.header, r.caseType
+		if r.headers != nil {
+			hdr, typ = r.headers[i], r.types[i]
+		}
+		sb.WriteString(hdr)
+		sb.WriteString("Definition cases : list " + typ + " := [\n")
 		sb.WriteString(strings.Join(cs, ";\n"))
 		sb.WriteString("\n].\nDefinition M := Eval vm_compute in mismatches cases.\nPrint M.\n")
 		name := filepath.Join(r.outDir, fmt.Sprintf("Cases_%s_%d.v", r.prop, i))
